@@ -25,9 +25,9 @@ RULE = ('Generated experiment frames (1-8 geos per group, 12-70 dates, unique / 
 ASSUMPTIONS = ['the date is a column of the frame (the method selects it by name)',
                'frames have >= 12 dates (the correlation test needs >= 4 observations)']
 EXHAUSTIVE = {'quick': False, 'thorough': False}
-MINIMA = {'quick': {'fits_ok': 300, 'removed_geo_cases': 40, 'removed_date_cases': 40, 'permutation_pairs': 300,
+MINIMA = {'quick': {'refits': 80, 'returned_frame_edits': 150, 'fits_ok': 300, 'removed_geo_cases': 40, 'removed_date_cases': 40, 'permutation_pairs': 300,
                     'nonunique_index_cases': 80, 'distinct_nontrivial': 100},
-          'thorough': {'fits_ok': 5000, 'removed_geo_cases': 600, 'removed_date_cases': 600, 'permutation_pairs': 5000,
+          'thorough': {'refits': 1200, 'returned_frame_edits': 2000, 'fits_ok': 5000, 'removed_geo_cases': 600, 'removed_date_cases': 600, 'permutation_pairs': 5000,
                        'nonunique_index_cases': 1200, 'distinct_nontrivial': 1500}}
 N = {'quick': 480, 'thorough': 7000}
 CASE_TIMEOUT = {'quick': 180, 'thorough': 600}
@@ -138,6 +138,12 @@ def run_case(spec):
   before = frame.copy(deep=True)
   d = mod.TBRDiagnostics()
   target = None if (not kwargs or r.random() < 0.5) else names['response']
+  if r.random() < 0.3:
+    # one diagnostics object is used for two experiments in a row: results must be those of the last fit only
+    r2, g2 = util.rngs(PROP, spec['seed'], spec['idx'], salt=1)
+    decoy = make_frame(r2, g2)
+    util.call(d.fit, decoy[0], None, **decoy[1])
+    counters['refits'] += 1
   fit = util.call(d.fit, frame, target, **kwargs)
   counters['fits'] += 1
   if not frame.equals(before) or list(frame.index) != list(before.index) or list(frame.columns) != list(before.columns):
@@ -170,6 +176,16 @@ def run_case(spec):
   out_set = set(dates_out)
   want = before[~before[names['geo']].isin(noisy_set) & ~before[names['date']].isin(out_set)]
   got = d.get_data()
+  if got is not None and r.random() < 0.5:
+    # a caller edits the frame it was given back; a later read must not be affected
+    try:
+      got['scratch'] = 1
+      got.drop(got.index[:3], inplace=True)
+      got[names['response']] = 0.0
+    except Exception:  # pylint: disable=broad-except
+      pass
+    counters['returned_frame_edits'] += 1
+    got = d.get_data()
   if got is None:
     add('get-data', 'screen-get-data-none', 'get_data() returned None after fit')
     return done(True, ['ok'])
